@@ -370,6 +370,97 @@ theorem ensureRoutesF_inv {c : Codec} (b : Option Nat) (s : Strategy) {us : List
         simp only []
         cases (applyLoop b1 ds (storeLoop c b objs).1).2 <;> exact hfin
 
+/-! ## a call that has nothing to do issues no write -/
+
+theorem storeIfAbsentW_snd {c : Codec} {o : Obj} (h : storeIfAbsent c o = o) : (storeIfAbsentW c o).2 = false := by
+  cases hl : lookup origKey (o.annotations.getD []) with
+  | some v => simp [storeIfAbsentW, hl]
+  | none =>
+    simp only [storeIfAbsent, hl, storeObject] at h
+    simp only [storeIfAbsentW, hl, storeObjectW]
+    by_cases he : origOf o = c.enc (dataOf o)
+    · simp [he]
+    · simp only [he, if_false] at h
+      have := congrArg (fun x => lookup origKey (x.annotations.getD [])) h
+      simp only [Option.getD_some, lookup_setKey_self, hl] at this
+      cases this
+
+theorem storeLoop_fix {c : Codec} {l : List PRef} (h : storedOf c l = l) (b : Option Nat) :
+    storeLoop c b l = (l, some b) := by
+  induction l generalizing b with
+  | nil => rfl
+  | cons p r ih =>
+    simp only [storedOf, List.map_cons, List.cons.injEq] at h
+    obtain ⟨h1, h2⟩ := h
+    have hp : storeIfAbsent c p.2 = p.2 := by
+      have := congrArg Prod.snd h1; simpa using this
+    have hw := storeIfAbsentW_snd hp
+    have hfst : (storeIfAbsentW c p.2).1 = p.2 := by rw [storeIfAbsentW_fst]; exact hp
+    simp [storeLoop, hw, ih h2, hfst]
+
+theorem applyLoop_fix (c : Codec) (s : Strategy) {l : List PRef} {ds : List Data}
+    (hp : planAll c s l = some ds) (h : ((applyAll ds l).all fun r => !r.2) = true) (b : Option Nat) :
+    applyLoop b ds l = (l.map refOf, some true) ∧ (applyAll ds l).map (·.1) = l.map refOf := by
+  induction l generalizing ds b with
+  | nil => simp [planAll] at hp; subst hp; exact ⟨rfl, rfl⟩
+  | cons p r ih =>
+    obtain ⟨f, o⟩ := p
+    cases hpl : plan c s f o with
+    | none => simp [planAll, hpl] at hp
+    | some d =>
+      cases hr : planAll c s r with
+      | none => simp [planAll, hpl, hr] at hp
+      | some ds' =>
+        simp [planAll, hpl, hr] at hp
+        subst hp
+        simp only [applyAll, List.all_cons, Bool.and_eq_true, Bool.not_eq_eq_eq_not, Bool.not_true] at h
+        obtain ⟨hu, hrest⟩ := h
+        obtain ⟨ih1, ih2⟩ := ih hr hrest b
+        have hfst : (compareAndUpdate d o).1 = o := by
+          rcases compareAndUpdate_cases d o with ⟨_, h2⟩ | h2
+          · rw [h2]
+          · rw [h2] at hu; simp at hu
+        simp [applyLoop, applyAll, hu, ih1, ih2, hfst, refOf]
+
+theorem refOf_injective : ∀ {l l' : List PRef}, l.map refOf = l'.map refOf → l = l' := by
+  intro l
+  induction l with
+  | nil => intro l' h; cases l' <;> simp_all
+  | cons p r ih =>
+    intro l' h
+    cases l' with
+    | nil => simp at h
+    | cons p' r' =>
+      simp only [List.map_cons, List.cons.injEq] at h
+      obtain ⟨h1, h2⟩ := h
+      have : p = p' := by
+        obtain ⟨f, o⟩ := p; obtain ⟨f', o'⟩ := p'
+        simp only [refOf, Ref.mk.injEq, Option.some.injEq] at h1
+        rw [h1.1, h1.2]
+      rw [this, ih h2]
+
+/-- a call that changes nothing and reports `done` issues no `Update` at all: it succeeds even when the
+    API server refuses every write. -/
+theorem ensureRoutesF_fix {c : Codec} {s : Strategy} {st : List Ref}
+    (h : ensureRoutes c s st = (st, .ok true)) (b : Option Nat) : ensureRoutesF c b s st = (st, .ok true) := by
+  rw [ensureRoutes_unfold] at h
+  unfold ensureRoutesF
+  cases hg : getAll st with
+  | none => simp [hg] at h
+  | some l =>
+    have hst := getAll_some hg
+    rw [mkRef_eq_refOf] at hst
+    simp only [hg] at h ⊢
+    cases hp : planAll c s (storedOf c l) with
+    | none => simp [hp] at h
+    | some ds =>
+      simp only [hp, Prod.mk.injEq, Res.ok.injEq] at h
+      obtain ⟨h1, h2⟩ := h
+      have ⟨_, ha2⟩ := applyLoop_fix c s hp h2 none
+      have hsto : storedOf c l = l := refOf_injective (by rw [← ha2, h1, hst])
+      rw [hsto] at hp
+      have ⟨ha1, _⟩ := applyLoop_fix c s hp (by rw [← hsto]; exact h2) b
+      simp [storeLoop_fix hsto b, hp, ha1, hst]
 /-! ## statelessness from the invariant -/
 
 theorem stateless_of_HRel {c : Codec} (s : Strategy) {l0 l : List PRef}
